@@ -347,31 +347,39 @@ func c16Body(c *ev.Ctx) {
 		reuse := 0
 		for ai, sa := range shapes {
 			for bi, sb := range shapes {
-				insA, delA := mk(sa, ai)
-				insB, delB := mk(sb, bi+5)
-				jA, e1 := json.Marshal(&insA)
-				jB, e2 := json.Marshal(&insB)
-				if e1 == nil && e2 == nil {
-					var v prover.InsertionParameters
-					if err := safeUnmarshal(jA, &v); err == nil {
-						err = safeUnmarshal(jB, &v)
-						if err != nil || canon(&v) != canon(&insB) {
-							c.Violation("reuse|insertion", fmt.Sprintf("decoding insertion parameters of shape %v into a value that held shape %v: err=%v, value is %s, document says %s", sb, sa, err, canon(&v), canon(&insB)), c16Case{Kind: "rt-ins", Doc: string(jB)})
+				func() {
+					defer func() {
+						// a decoded number that math/big cannot even print is a verdict about the decoder
+						if r := recover(); r != nil {
+							c.Violation("reuse|corrupt-value", fmt.Sprintf("decoding parameters of shape %v into a value that held shape %v yields a number that panics when used: %v", sb, sa, r), nil)
+						}
+					}()
+					insA, delA := mk(sa, ai)
+					insB, delB := mk(sb, bi+5)
+					jA, e1 := json.Marshal(&insA)
+					jB, e2 := json.Marshal(&insB)
+					if e1 == nil && e2 == nil {
+						var v prover.InsertionParameters
+						if err := safeUnmarshal(jA, &v); err == nil {
+							err = safeUnmarshal(jB, &v)
+							if err != nil || canon(&v) != canon(&insB) {
+								c.Violation("reuse|insertion", fmt.Sprintf("decoding insertion parameters of shape %v into a value that held shape %v: err=%v, value is %s, document says %s", sb, sa, err, canon(&v), canon(&insB)), c16Case{Kind: "rt-ins", Doc: string(jB)})
+							}
 						}
 					}
-				}
-				jA, e1 = json.Marshal(&delA)
-				jB, e2 = json.Marshal(&delB)
-				if e1 == nil && e2 == nil {
-					var v prover.DeletionParameters
-					if err := safeUnmarshal(jA, &v); err == nil {
-						err = safeUnmarshal(jB, &v)
-						if err != nil || canon(&v) != canon(&delB) {
-							c.Violation("reuse|deletion", fmt.Sprintf("decoding deletion parameters of shape %v into a value that held shape %v: err=%v, value is %s, document says %s", sb, sa, err, canon(&v), canon(&delB)), c16Case{Kind: "rt-del", Doc: string(jB)})
+					jA, e1 = json.Marshal(&delA)
+					jB, e2 = json.Marshal(&delB)
+					if e1 == nil && e2 == nil {
+						var v prover.DeletionParameters
+						if err := safeUnmarshal(jA, &v); err == nil {
+							err = safeUnmarshal(jB, &v)
+							if err != nil || canon(&v) != canon(&delB) {
+								c.Violation("reuse|deletion", fmt.Sprintf("decoding deletion parameters of shape %v into a value that held shape %v: err=%v, value is %s, document says %s", sb, sa, err, canon(&v), canon(&delB)), c16Case{Kind: "rt-del", Doc: string(jB)})
+							}
 						}
 					}
-				}
-				reuse += 2
+					reuse += 2
+				}()
 			}
 		}
 		evals += int64(reuse)
